@@ -46,7 +46,7 @@ fn emit(ctx: &mut Ctx, e: &Env, kind: &str, line: String, res: &Curve25519, spec
     let got = pw(res);
     ctx.case(&format!("ed-{kind}"), true, &line, &big::tok_pair(&got));
     if got != *spec || !big::e_on_curve(&e.f, &e.a, &e.d, &got) {
-        ctx.oracle_fail(&format!("C11:{line}"), "Curve25519 operation disagrees with the affine twisted-Edwards law over big integers", json!({"op": line, "impl": big::tok_pair(&got), "law": big::tok_pair(spec)}));
+        crate::fail(ctx, &format!("C11:{line}"), "Curve25519 operation disagrees with the affine twisted-Edwards law over big integers", json!({"op": line, "impl": big::tok_pair(&got), "law": big::tok_pair(spec)}));
     }
 }
 
@@ -54,7 +54,7 @@ pub fn run(ctx: &mut Ctx) {
     let f = Fld::new(p());
     let e = Env { a: fe(&CURVE_A), d: fe(&CURVE_D), f };
     if e.a != e.f.fp(p() - bu(1)) {
-        ctx.oracle_fail("C11:ed:a", "CURVE_A is not -1", json!({}));
+        crate::fail(ctx, "C11:ed:a", "CURVE_A is not -1", json!({}));
     }
     let id = (e.f.fp(bu(0)), e.f.fp(bu(1)));
     let mut rng = ctx.rng("ed-operands");
@@ -102,7 +102,7 @@ pub fn run(ctx: &mut Ctx) {
         || pw(&Curve25519::identity()) != id
         || Curve25519::from(Curve25519Affine::default()) != Curve25519::identity()
     {
-        ctx.oracle_fail("C11:ed:identity", "identity constructors / conversions disagree", json!({}));
+        crate::fail(ctx, "C11:ed:identity", "identity constructors / conversions disagree", json!({}));
     }
     for (_, x) in &ops {
         let x = *x;
@@ -118,13 +118,13 @@ pub fn run(ctx: &mut Ctx) {
         ctx.case("ed-pred", true, &format!("ed tf {xt}"), &format!("{}", tf as u8));
         ctx.count(&format!("ed-torsion-free:{tf}"));
         if tf != law || Curve25519Subgroup::from_edwards(x.0).is_some() != law || isid != (xw == id) {
-            ctx.oracle_fail(&format!("C11:ed:tf {xt}"), "torsion / identity predicate disagrees with the affine law", json!({}));
+            crate::fail(ctx, &format!("C11:ed:tf {xt}"), "torsion / identity predicate disagrees with the affine law", json!({}));
         }
         ctx.case("ed-oncurve", true, &format!("ed oncurve {xt}"), "1");
         let fx = Curve25519Affine::from_xy(*xa.x(), *xa.y());
         ctx.case("ed-fromxy", true, &format!("ed fromxy {xt}"), &fx.map_or("none".into(), |q| big::tok_pair(&aw(&q))));
         if fx != Some(xa) || fx.map(|q| Curve25519::from(q) == x) != Some(true) {
-            ctx.oracle_fail(&format!("C11:ed:fromxy {xt}"), "from_xy(x(), y()) is not the point", json!({}));
+            crate::fail(ctx, &format!("C11:ed:fromxy {xt}"), "from_xy(x(), y()) is not the point", json!({}));
         }
         let bad = Curve25519Affine::from_xy(*xa.x(), *xa.y() + Fp::ONE);
         let bt = format!("{}/{}", big::tok(&fe(xa.x())), big::tok(&fe(&(*xa.y() + Fp::ONE))));
@@ -132,7 +132,7 @@ pub fn run(ctx: &mut Ctx) {
         // via from_edwards (recomputes x from the compressed form)
         let re = Curve25519Affine::from_edwards(x.0);
         if re != xa || re.to_edwards() != x.0 {
-            ctx.oracle_fail(&format!("C11:ed:from_edwards {xt}"), "from_edwards / to_edwards inconsistent", json!({}));
+            crate::fail(ctx, &format!("C11:ed:from_edwards {xt}"), "from_edwards / to_edwards inconsistent", json!({}));
         }
     }
     let mut pairs: Vec<(Curve25519, Curve25519, &'static str)> = vec![];
@@ -180,7 +180,7 @@ pub fn run(ctx: &mut Ctx) {
         }
         let law = xw == yw;
         if (x == y) != law || bool::from(x.ct_eq(&y)) != law || (xa == ya) != law || bool::from(xa.ct_eq(&ya)) != law {
-            ctx.oracle_fail(&format!("C11:ed:eq {xt} {yt}"), "equality differs from equality of the affine values", json!({}));
+            crate::fail(ctx, &format!("C11:ed:eq {xt} {yt}"), "equality differs from equality of the affine values", json!({}));
         }
     }
     // scalars
@@ -228,7 +228,7 @@ pub fn run(ctx: &mut Ctx) {
         Curve25519::batch_normalize(&pts, &mut out);
         for (j, q) in pts.iter().enumerate() {
             if out[j] != q.to_affine() {
-                ctx.oracle_fail(&format!("C11:ed:batch_normalize {}", toks[j]), "batch_normalize differs from to_affine", json!({}));
+                crate::fail(ctx, &format!("C11:ed:batch_normalize {}", toks[j]), "batch_normalize differs from to_affine", json!({}));
             }
         }
         ctx.count("ed-batch-normalize");
@@ -261,7 +261,7 @@ pub fn run(ctx: &mut Ctx) {
         ctx.case("ed-enc", true, &format!("ed enc:affine {xt}"), &hex_bytes(&x.to_affine().to_bytes()));
         let back: Option<Curve25519> = Curve25519::from_bytes(&b).into();
         if back != Some(*x) {
-            ctx.oracle_fail(&format!("C11:ed:roundtrip {xt}"), "from_bytes(to_bytes(P)) != P", json!({}));
+            crate::fail(ctx, &format!("C11:ed:roundtrip {xt}"), "from_bytes(to_bytes(P)) != P", json!({}));
         }
         dec(ctx, "valid", &b);
     }
